@@ -179,3 +179,134 @@ def units_contexts(cx, kind, u1, u2):
     finally:
         import shutil
         shutil.rmtree(d, ignore_errors=True)
+
+
+F_D = "quantarhei/core/datasaveable.py"
+
+
+class FileStubs:
+    """symbolic mode: the C-level array I/O (numpy.save/load/savetxt/loadtxt/savez_compressed,
+    scipy.io.savemat/loadmat) replaced by an in-memory store with their documented shape contracts:
+    npy/npz keep shape; text keeps 1-D/2-D arrays, squeezes single rows/columns and needs dtype=complex
+    to read complex numbers; Matlab files hold at least two-dimensional arrays (1-D -> one row)."""
+
+    def __init__(self):
+        self.store = {}
+
+    @staticmethod
+    def _has_complex(a):
+        from symnum import core
+        for v in numpy.asarray(a, dtype=object).flat:
+            v = core.lift(v)
+            if not v.is_real:
+                return True
+        return False
+
+    def save(self, file, arr, **kw):
+        name = file if str(file).endswith(".npy") else str(file) + ".npy"
+        self.store[name] = numpy.array(arr, dtype=object).copy()
+
+    def savez_compressed(self, file, **kw):
+        name = file if str(file).endswith(".npz") else str(file) + ".npz"
+        self.store[name] = {k: numpy.array(v, dtype=object).copy() for k, v in kw.items()}
+
+    def load(self, file, **kw):
+        v = self.store[str(file)]
+        return {k: a.copy() for k, a in v.items()} if isinstance(v, dict) else v.copy()
+
+    def savetxt(self, file, arr, **kw):
+        a = numpy.array(arr, dtype=object)
+        if a.ndim not in (1, 2):
+            raise ValueError("Expected 1D or 2D array, got %dD array instead" % a.ndim)
+        self.store[str(file)] = a.copy()
+
+    def loadtxt(self, file, dtype=float, **kw):
+        a = self.store[str(file)]
+        if self._has_complex(a) and numpy.dtype(dtype).kind != "c":
+            raise ValueError("could not convert string to float")
+        return numpy.squeeze(a.copy()) if a.ndim == 2 and 1 in a.shape else a.copy()
+
+    def savemat(self, file, mdict, **kw):
+        self.store[str(file)] = {k: numpy.atleast_2d(numpy.array(v, dtype=object)).copy() for k, v in mdict.items()}
+
+    def loadmat(self, file, **kw):
+        return {k: a.copy() for k, a in self.store[str(file)].items()}
+
+
+@contextlib.contextmanager
+def file_io(cx):
+    """symbolic: FileStubs patched into numpy / scipy.io for the duration; replay: real files in a scratch dir"""
+    d = tempfile.mkdtemp(prefix="c18_")
+    try:
+        if not cx.sym:
+            yield d
+            return
+        import scipy.io as sio
+        st = FileStubs()
+        saved = []
+        for mod, names in ((numpy, ("save", "load", "savetxt", "loadtxt", "savez_compressed")),
+                           (sio, ("savemat", "loadmat"))):
+            for n in names:
+                saved.append((mod, n, getattr(mod, n)))
+                setattr(mod, n, getattr(st, n))
+        cx.note("array file I/O stub: in-memory store; npy/npz keep shape, text squeezes single rows/columns and "
+                "needs dtype=complex for complex data, Matlab arrays are at least 2-D (1-D -> one row)")
+        try:
+            yield d
+        finally:
+            for mod, n, f in saved:
+                setattr(mod, n, f)
+    finally:
+        import shutil
+        shutil.rmtree(d, ignore_errors=True)
+
+
+@harness("C18", "data_export",
+         quick=[dict(ext=e, cplx=c, dim=d, axis=a) for e in (".dat", ".npy", ".npz", ".mat") for c in (False, True)
+                for d in (1, 2) for a in (False, True)],
+         thorough=[dict(ext=e, cplx=c, dim=d, axis=a, N=n) for e in (".dat", ".txt", ".npy", ".npz", ".mat")
+                   for c in (False, True) for d in (1, 2) for a in (False, True) for n in (3, 5)],
+         functions=[F_D + ":DataSaveable.save_data", F_D + ":DataSaveable.load_data",
+                    F_D + ":DataSaveable._data_with_axis", F_D + ":DataSaveable._extract_data_with_axis",
+                    F_D + ":DataSaveable._saveBinaryData", F_D + ":DataSaveable._saveBinaryData_compressed",
+                    F_D + ":DataSaveable._exportDataToText", F_D + ":DataSaveable._importDataFromText",
+                    F_D + ":DataSaveable._saveMatlab", F_D + ":DataSaveable._loadMatlab"],
+         bound="every supported extension, real / complex symbolic data of shape (N,) and (N,3), N=3 (thorough 3, 5), "
+               "with and without an accompanying time axis: save_data then load_data into a fresh object (and a "
+               "fresh axis) gives data of the same shape with equal elements and the same axis values; the C-level "
+               "file I/O is the in-memory stub with the formats' shape contracts (replay: the real files)",
+         out="byte-level file contents; precision of the text format (%.18e is exact for doubles)")
+def data_export(cx, ext, cplx, dim, axis, N=3):
+    import quantarhei as qr
+    from quantarhei.core.datasaveable import DataSaveable
+
+    class Obj(DataSaveable):
+        data = None
+    shape = (N,) if dim == 1 else (N, 3)
+    d = cx.cplx_array("d", shape) if cplx else cx.real_array("d", shape)
+    o = Obj()
+    o.data = d.copy()
+    with cx.concrete():
+        ax = qr.TimeAxis(0.0, N, 1.0) if axis else None
+        ax2 = qr.TimeAxis(5.0, N, 2.0) if axis else None
+        axdata = numpy.array(ax.data, dtype=float) if axis else None
+    label = "roundtrip_%s" % ext.strip(".")
+    with file_io(cx) as tmp:
+        name = os.path.join(tmp, "f" + ext)
+        o2 = Obj()
+        try:
+            with contextlib.redirect_stdout(open(os.devnull, "w")):
+                o.save_data(name, with_axis=ax)
+                o2.load_data(name, with_axis=ax2)
+        except Exception as e:      # noqa: BLE001 - any failure of the export/import is a failed round trip
+            cx.fail(label, "%s: %s" % (type(e).__name__, str(e)[:120]))
+            return
+    got = numpy.asarray(o2.data)
+    cx.prove(label + "_shape", tuple(got.shape) == shape)
+    if tuple(got.shape) != shape:
+        return
+    cx.prove_eq(label, got, d, tol=1e-12)
+    cx.prove_eq("exported_object_unchanged", o.data, d)
+    if axis:
+        cx.prove_eq(label + "_axis", numpy.asarray(ax2.data), axdata, tol=1e-12)
+        cx.prove_eq("exported_axis_unchanged", numpy.asarray(ax.data), axdata)
